@@ -158,6 +158,17 @@ def load_check(prop):
     return importlib.import_module("checks." + prop.lower())
 
 
+def raised_inside_library(exc):
+    """file:function of the innermost traceback frame when that frame is library code (under REPO), else None."""
+    tb = traceback.extract_tb(exc.__traceback__)
+    if not tb:
+        return None
+    fn = tb[-1].filename.replace("\\", "/")
+    if fn.startswith(REPO.rstrip("/") + "/") and "/jsonpath/" in fn:
+        return "%s:%s" % (fn.rsplit("/jsonpath/", 1)[1], tb[-1].name)
+    return None
+
+
 def writable(v, _depth=0):
     """A copy that json can always write: integers with more digits than the interpreter converts to text become a
     marker, other non-JSON objects their repr (cut)."""
@@ -182,6 +193,7 @@ def run_shard_main(prop, tier, seed, spec_file, out_file):
     with open(spec_file) as f:
         spec = json.load(f)
     res = {"shard": spec.get("shard"), "error": None}
+    ctx = None
     try:
         repo_setup()
         from . import mon
@@ -214,7 +226,18 @@ def run_shard_main(prop, tier, seed, spec_file, out_file):
     except WrongTree as e:
         res["error"] = "wrong-tree: %s" % e
     except BaseException as e:  # noqa: BLE001
-        res["error"] = "shard crashed: %s: %s\n%s" % (type(e).__name__, e, traceback.format_exc()[-3000:])
+        site = raised_inside_library(e)
+        if ctx is not None and site and isinstance(e, Exception) and not isinstance(e, (RecursionError, MemoryError)):
+            # the check called the library somewhere it does not expect an exception (it never gets one on the unchanged
+            # tree) and the exception was raised by library code: that is an observation about the library, not a broken
+            # check - reported as a violation whose replay re-runs this shard
+            ctx.violation("the-library-raised-where-the-check-expects-no-exception:%s@%s" % (type(e).__name__, site), {"history": True, "crash": True, "spec": spec},
+                          {"error": "%s: %s" % (type(e).__name__, str(e)[:300]), "site": site, "traceback_tail": traceback.format_exc()[-1200:]})
+            res = ctx.result()
+            res["error"] = None
+            res["lines"], res["raises"], res["calls"] = {}, {}, {}
+        else:
+            res["error"] = "shard crashed: %s: %s\n%s" % (type(e).__name__, e, traceback.format_exc()[-3000:])
     res["wall_s"] = time.time() - t0
     with open(out_file, "w") as f:
         f.write(json.dumps(writable(res), ensure_ascii=True, default=repr))
@@ -378,8 +401,13 @@ def main(argv=None):
             ctx.spec = rec["case"]["spec"]
             ctx.shard = ctx.spec.get("shard", 0)
             ctx.rng = random.Random(derive_seed(rec.get("seed", seed), prop, ctx.shard))
-            mod.run(ctx.spec, ctx)
-            ctx.recheck()
+            try:
+                mod.run(ctx.spec, ctx)
+                ctx.recheck()
+            except Exception as e:  # noqa: BLE001
+                if not raised_inside_library(e):
+                    raise
+                ctx.violation("the-library-raised-where-the-check-expects-no-exception:%s" % type(e).__name__, rec["case"], {"error": "%s: %s" % (type(e).__name__, str(e)[:300])})
         else:
             mod.replay(rec["case"], ctx)
         if ctx.viol_total:
